@@ -393,6 +393,14 @@ fn convert_expr(ctx: &mut ResolveContext, e_id: ExprNodeId) -> ExprNodeId {
             Expr::Let(pat, new_body, new_then).into_id(loc)
         }
         Expr::Lambda(params, r_type, body) => {
+            // default values are evaluated at the call site: resolve them outside the parameter scope
+            let params: Vec<_> = params
+                .into_iter()
+                .map(|mut param| {
+                    param.default_value = param.default_value.map(|d| convert_expr(ctx, d));
+                    param
+                })
+                .collect();
             ctx.push_scope();
             for param in &params {
                 ctx.bind_local(param.id);
